@@ -69,13 +69,18 @@ def tip_path(case):
                 u[1:-1] += rng.uniform(-0.4, 0.4, size=u.size - 2) * step
     tip_a = top + (bot - top) * ua
     tip_r = bot + (top - bot) * ur
+    n_pause = int(case.get("n_pause") or 0)
+    if n_pause:
+        # a dwell at maximum indentation: third segment between approach and retract
+        return np.concatenate([tip_a, np.full(n_pause, bot), tip_r])
     return np.concatenate([tip_a, tip_r])
 
 
 def arrays(case):
     """Return dict(tip, force, clean_force, height, segment, time, frange)"""
     n_app, n_ret = int(case["n_app"]), int(case["n_ret"])
-    n = n_app + n_ret
+    n_pause = int(case.get("n_pause") or 0)
+    n = n_app + n_pause + n_ret
     tip = tip_path(case)
     clean = refmodels.force(case["model"], tip, case["params"])
     frange = float(clean.max() - clean.min())
@@ -98,12 +103,14 @@ def arrays(case):
     lag = int(case.get("lag", 0))
     seg = np.zeros(n, dtype=np.uint8)
     seg[max(1, n_app - lag):] = 1
+    if n_pause:
+        seg[n_app + n_pause:] = 2     # approach 0 / pause 1 / retract 2
     return {"tip": tip, "force": force, "clean": clean, "height": height, "segment": seg,
             "time": t, "frange": frange}
 
 
 def metadata(case, path=None):
-    n = int(case["n_app"]) + int(case["n_ret"])
+    n = int(case["n_app"]) + int(case["n_ret"]) + int(case.get("n_pause") or 0)
     md = {"path": pathlib.Path(path or "/nonexistent/verif_synth.h5"),
           "enum": int(case.get("enum", 0)),
           "imaging mode": "force-distance",
